@@ -595,7 +595,7 @@ def fromstr_decls(tier='quick'):
     return out
 
 
-def h_deserialize(d: Decl, props, bounded=None, concrete=None):
+def h_deserialize(d: Decl, props, bounded=None, concrete=None, only_protocol=False):
     """C04: protocol-following document => Ok(v) iff inner ok and constructor accepts, v == constructor's
     value; inner failure passed through; validation failure => an error; protocol violation => error."""
     S = concrete_self(d)
@@ -604,6 +604,8 @@ def h_deserialize(d: Decl, props, bounded=None, concrete=None):
     if concrete is None:
         val = anyval(d, 'raw')
         mode = '        let mode: u8 = kani::any();\n        let ok: bool = kani::any();\n'
+        if only_protocol:
+            mode = '        let mode: u8 = 0;\n        let ok: bool = kani::any();\n'
     else:
         val = '        let raw: String = String::from(%s);\n' % concrete[0]
         mode = '        let mode: u8 = %d;\n        let ok: bool = %s;\n' % (concrete[1], concrete[2])
@@ -627,7 +629,7 @@ def h_deserialize(d: Decl, props, bounded=None, concrete=None):
              '        } else {\n'
              '            assert!(r.is_err(), "a document that is not a newtype struct around the inner value is rejected");\n'
              '        }\n')
-    what = 'Deserialize::deserialize' + ('' if concrete is None else '(%s)' % concrete[3])
+    what = 'Deserialize::deserialize' + ('' if concrete is None else '(%s)' % concrete[3]) + (' [protocol-following documents only]' if only_protocol else '')
     return Harness(d, what, props, body, bounded=bounded,
                    clause='deserialize(doc) is Ok(v) <=> the carried inner value deserializes and try_new(it) == Ok(v); otherwise Err')
 
@@ -718,6 +720,13 @@ def serde_decls(tier='quick'):
         if fl:
             out.append(mk('sd_%s_bounds_nofinite' % t, fam, t, validators=[Validator('greater_or_equal', bl)], aux=[n1], derives=sd))
     out += generic_decls('sd', sd)
+    # 128-bit integers: their Deserialize harness is restricted to protocol-following documents
+    # (the protocol-violating modes time out in CBMC for 128-bit visitors)
+    for t in ['i128', 'u128']:
+        bl, n1 = aux.sym_bound('lo', t)
+        bu, n2 = aux.sym_bound('hi', t)
+        out.append(mk('sd_%s_nov' % t, 'int', t, derives=sd))
+        out.append(mk('sd_%s_val' % t, 'int', t, validators=[Validator('greater_or_equal', bl), Validator('less', bu)], aux=[n1, n2], derives=sd))
     for d in out:
         d.verus = False
         d.kani = True
@@ -1214,7 +1223,7 @@ def harnesses_for(prop, tier, seed):
         sdecls = serde_string_decls()
         for d in decls:
             if prop == 'C04':
-                hs.append(h_deserialize(d, [prop]))
+                hs.append(h_deserialize(d, [prop], only_protocol=d.inner in ('i128', 'u128')))
             else:
                 hs.append(h_serialize(d, [prop]))
                 if not d.sanitizers:
